@@ -141,6 +141,8 @@ func (*c07Prop) Gen(r *Rand, pl *Plan) Case {
 	for i := 0; i < nsteps; i++ {
 		s := c07Step{Consumer: r.Intn(consumers)}
 		switch {
+		case r.Chance(1, 8):
+			s.Kind = "parse" // the whole parsley.Parse pipeline (parse, Transform, StaticCheck) on the shared context
 		case r.Chance(1, 4):
 			s.Kind = "root"
 		default:
@@ -331,7 +333,7 @@ func (m *monitor) track(n parsley.Node) {
 
 func (m *monitor) culprit() frame {
 	if len(m.stack) == 0 {
-		return frame{label: "(consumer)", idx: -1}
+		return frame{label: "(no parser running: consumer or the parsley.Parse pipeline after parsing)", idx: -1}
 	}
 	return m.stack[len(m.stack)-1]
 }
@@ -574,6 +576,18 @@ func (*c07Prop) Run(cc Case) (v Verdict) {
 	for i := range c.Steps {
 		s := &c.Steps[i]
 		consumers[s.Consumer] = true
+		if s.Kind == "parse" {
+			ctx.EnableTransformation()
+			ctx.EnableStaticCheck()
+			n, _ := parsley.Parse(ctx, b.Root)
+			m.track(n)
+			m.checkAll()
+			v.Probes["requests:parse"]++
+			if m.viol != nil {
+				break
+			}
+			continue
+		}
 		q := s.parser(c, b, m, an.Nullable)
 		pos := ctx.Reader().Pos(s.Pos)
 		if s.Kind == "root" {
